@@ -1148,7 +1148,13 @@ func (c *Conn) readAll(r io.Reader, size int) (*[]byte, error) {
 	pbuf := c.Engine.BodyAllocator.Malloc(size)
 	*pbuf = (*pbuf)[0:0]
 	for {
-		n, err := r.Read((*pbuf)[len(*pbuf):cap(*pbuf)])
+		// never read beyond the limit, whatever capacity the allocator
+		// or append handed out.
+		end := cap(*pbuf)
+		if c.MessageLengthLimit > 0 && end > c.MessageLengthLimit {
+			end = c.MessageLengthLimit
+		}
+		n, err := r.Read((*pbuf)[len(*pbuf):end])
 		if n > 0 {
 			*pbuf = (*pbuf)[:len(*pbuf)+n]
 		}
@@ -1158,11 +1164,24 @@ func (c *Conn) readAll(r io.Reader, size int) (*[]byte, error) {
 			}
 			return pbuf, err
 		}
-		if len(*pbuf) == cap(*pbuf) {
+		if len(*pbuf) == end {
 			l := len(*pbuf)
-			// can not extend more bytes.
+			// can not extend more bytes: fine only if the stream ends here.
 			if c.isMessageTooLarge(l + 1) {
-				return nil, ErrMessageTooLarge
+				var one [1]byte
+				for {
+					n, err = r.Read(one[:])
+					if n > 0 {
+						c.Engine.BodyAllocator.Free(pbuf)
+						return nil, ErrMessageTooLarge
+					}
+					if err != nil {
+						if err == io.EOF {
+							err = nil
+						}
+						return pbuf, err
+					}
+				}
 			}
 			al := l
 			if al > maxAppendSize {
